@@ -33,7 +33,7 @@ func (e *Engine) translateFacts() (lemmas []*Obligation) {
 		st := &State{vars: map[*types.Var]*Val{}, heap: map[string]string{}, bound: map[string]*Val{}, facts: map[string]bool{}}
 		st.bound["$spec"] = &Val{S: "1"}
 		var qs []string
-		var text string
+		var text, axText string
 		func() {
 			defer func() {
 				if r := recover(); r != nil {
@@ -50,16 +50,32 @@ func (e *Engine) translateFacts() (lemmas []*Obligation) {
 					bv := c.bvar(n.Name)
 					st.bound[n.Name] = &Val{T: t, S: bv, Sort: e.sortOf(t)}
 					qs = append(qs, fmt.Sprintf("(%s %s)", bv, e.sortOf(t)))
-					st.assume(e.typeFacts(bv, t))
+					// no implicit type facts: hypotheses are written out in the fact
 				}
 			}
 			v := c.eval(st, fa.Expr)
-			body := mkImplies(mkAnd(st.pc.list()...), v.S)
-			if len(qs) > 0 {
-				text = fmt.Sprintf("(forall (%s) %s)", strings.Join(qs, " "), body)
-			} else {
-				text = body
+			wrap := func(hyps []string) string {
+				body := mkImplies(mkAnd(hyps...), v.S)
+				if len(qs) > 0 {
+					return fmt.Sprintf("(forall (%s) %s)", strings.Join(qs, " "), body)
+				}
+				return body
 			}
+			// proof obligation: with the definition instances requested by
+			// unfold(); as an axiom for later use: without them (they are
+			// instances of the definition, i.e. true)
+			text = wrap(st.pc.list())
+			isUnfold := map[string]bool{}
+			for _, f := range c.unfoldFacts {
+				isUnfold[f] = true
+			}
+			var rest []string
+			for _, f := range st.pc.list() {
+				if !isUnfold[f] {
+					rest = append(rest, f)
+				}
+			}
+			axText = wrap(rest)
 		}()
 		if c.limit != "" {
 			fmt.Fprintf(os.Stderr, "govc: fact %s: %s\n", fa.Name, c.limit)
@@ -69,9 +85,12 @@ func (e *Engine) translateFacts() (lemmas []*Obligation) {
 			continue
 		}
 		if fa.Kind == "axiom" {
-			e.axioms = append(e.axioms, axiom{name: fa.Name, text: text})
+			e.axioms = append(e.axioms, axiom{name: fa.Name, text: axText})
 		} else {
-			lemmas = append(lemmas, &Obligation{Fn: "$lemma", Name: "lemma." + fa.Name, Kind: "lemma", Tags: fa.Tags, Goal: text, ctx: c, Text: fa.Text, Pos: fmt.Sprintf("contracts_verif.go:%d", fa.Line)})
+			// a lemma is proved from the facts that precede it and may be used by
+			// everything that follows
+			lemmas = append(lemmas, &Obligation{Fn: "$lemma", Name: "lemma." + fa.Name, Kind: "lemma", Tags: fa.Tags, Goal: text, ctx: c, Text: fa.Text, Pos: fmt.Sprintf("contracts_verif.go:%d", fa.Line), AxN: len(e.axioms) + 1})
+			e.axioms = append(e.axioms, axiom{name: fa.Name, text: axText, lemma: true})
 		}
 	}
 	return lemmas
@@ -109,7 +128,104 @@ func containsSymbol(text, sym string) bool {
 	}
 }
 
+// tokens splits an SMT term into its atoms.
+func tokens(s string) []string {
+	return strings.FieldsFunc(s, func(r rune) bool { return r == ' ' || r == '(' || r == ')' })
+}
+
+// relevantFacts is a cone-of-influence filter over the path facts: a fact is
+// kept when it shares a path-local constant (transitively) with the goal, or
+// mentions only entry-state symbols (parameters, entry heap arrays).
+// Dropping hypotheses is always sound for a proof attempt; a query that is not
+// unsat after filtering is retried with every fact.
+func relevantFacts(o *Obligation, facts []string) []string {
+	if o.ctx == nil {
+		return facts
+	}
+	declared := map[string]bool{}
+	for _, d := range o.ctx.decls {
+		name := d[len("(declare-const "):]
+		declared[name[:strings.IndexByte(name, ' ')]] = true
+	}
+	isEntry := func(n string) bool {
+		return strings.HasPrefix(n, "p_") || (strings.HasPrefix(n, "H_") && !strings.Contains(n, "!")) || strings.HasPrefix(n, "G_") || strings.HasPrefix(n, "fn_") || strings.HasPrefix(n, "alloc0_")
+	}
+	consts := func(t string) (loc []string, any bool) {
+		seen := map[string]bool{}
+		for _, tok := range tokens(t) {
+			if declared[tok] && !seen[tok] {
+				seen[tok] = true
+				any = true
+				if !isEntry(tok) {
+					loc = append(loc, tok)
+				}
+			}
+		}
+		return
+	}
+	rel := map[string]bool{}
+	goalTok := map[string]bool{}
+	for _, tok := range tokens(o.Goal) {
+		if declared[tok] {
+			goalTok[tok] = true
+			rel[tok] = true
+		}
+	}
+	type fc struct {
+		loc  []string
+		all  map[string]bool
+		keep bool
+	}
+	fcs := make([]fc, len(facts))
+	for i, f := range facts {
+		loc, _ := consts(f)
+		all := map[string]bool{}
+		for _, tok := range tokens(f) {
+			if declared[tok] {
+				all[tok] = true
+			}
+		}
+		fcs[i] = fc{loc: loc, all: all}
+		if len(loc) == 0 {
+			fcs[i].keep = true // entry-only fact (precondition, early branch)
+		}
+	}
+	for changed := true; changed; {
+		changed = false
+		for i := range fcs {
+			if fcs[i].keep {
+				continue
+			}
+			hit := false
+			for t := range fcs[i].all {
+				if rel[t] && (!isEntry(t) || goalTok[t]) {
+					hit = true
+					break
+				}
+			}
+			if hit {
+				fcs[i].keep = true
+				changed = true
+				for _, t := range fcs[i].loc {
+					rel[t] = true
+				}
+			}
+		}
+	}
+	var out []string
+	for i, f := range facts {
+		if fcs[i].keep {
+			out = append(out, f)
+		}
+	}
+	return out
+}
+
 func (e *Engine) buildQuery(o *Obligation, withModel bool) string {
+	return e.buildQueryF(o, withModel, false)
+}
+
+func (e *Engine) buildQueryF(o *Obligation, withModel, filter bool) string {
 	var b strings.Builder
 	b.WriteString("(set-option :produce-models true)\n(set-logic ALL)\n")
 	for _, d := range e.sorts.decls {
@@ -117,7 +233,11 @@ func (e *Engine) buildQuery(o *Obligation, withModel bool) string {
 		b.WriteByte('\n')
 	}
 	var body strings.Builder
-	for _, f := range o.PC.list() {
+	facts := o.PC.list()
+	if filter && o.Kind != "cover" {
+		facts = relevantFacts(o, facts)
+	}
+	for _, f := range facts {
 		body.WriteString("(assert ")
 		body.WriteString(f)
 		body.WriteString(")\n")
@@ -133,7 +253,7 @@ func (e *Engine) buildQuery(o *Obligation, withModel bool) string {
 	for changed := true; changed; {
 		changed = false
 		for i, ax := range e.axioms {
-			if used[i] {
+			if used[i] || (o.AxN > 0 && i >= o.AxN-1) {
 				continue
 			}
 			rel := false
@@ -248,15 +368,36 @@ func (e *Engine) discharge(o *Obligation, workdir string, budgetS int, idx int) 
 		return
 	}
 	file := filepath.Join(workdir, fmt.Sprintf("q%05d.smt2", idx))
-	if err := os.WriteFile(file, []byte(q), 0o644); err != nil {
-		o.Status = "error"
-		return
-	}
 	o.Outputs = map[string]string{}
 	start := time.Now()
 	quick := 2
 	if budgetS < quick {
 		quick = budgetS
+	}
+	// fast path: cone-of-influence filtered hypotheses; only "unsat" counts
+	if o.Kind != "cover" {
+		qf := e.buildQueryF(o, false, true)
+		if len(qf) < len(q) {
+			ffile := filepath.Join(workdir, fmt.Sprintf("q%05d.f.smt2", idx))
+			if err := os.WriteFile(ffile, []byte(qf), 0o644); err == nil {
+				for _, sp := range solvers[:2] {
+					rf := runSolver(context.Background(), sp, quick, ffile)
+					if rf.status == "unsat" {
+						o.TimeS = time.Since(start).Seconds()
+						o.Solver = rf.solver
+						o.Status = "proved"
+						o.Bytes = len(qf)
+						os.Remove(ffile)
+						return
+					}
+				}
+				os.Remove(ffile)
+			}
+		}
+	}
+	if err := os.WriteFile(file, []byte(q), 0o644); err != nil {
+		o.Status = "error"
+		return
 	}
 	r := runSolver(context.Background(), solvers[0], quick, file)
 	o.Outputs[r.solver] = firstLines(r.out, 3)
